@@ -47,7 +47,7 @@ CHECKS = {
         "reader yields exactly the records wholly contained in the surviving bytes and then ends or raises the library error "
         "with the number of the incomplete record (Props/C09.lean; blocked case via payloads(take n) = take (surv n) payloads). "
         "Tied to /repo by running VbsReader on every cut offset of each generated file against the model and an "
-        "independent count of whole records.",
+        "independent count of whole records. In addition a SOURCE TIE: harness/pytrans.py translates the current Python text of VbsReader.__next__ (raises rendered as results) into Lean (Gen/Src.lean) on every run and lean/Cardutil/SrcTie/Reader.lean proves, for all inputs, that the translation equals the model (and restates the property for the translated code); when the source changes so that this no longer checks, the check runs its thorough generators before answering (the correspondence remains the deciding tie).",
         "Trusted: as C03.",
         "DESIGN.md §8 C09"),
     'C11': (
@@ -124,7 +124,7 @@ CHECKS = {
         "record number k and the raw bytes of record k including its length prefix (message-level faults), the four "
         "length bytes (oversized length) or the bytes that could be read (truncated record); blocked files behave as "
         "their payload stream (Props/C10.lean). Tied to /repo by every k in files of n records x 8 fault kinds x 2 formats "
-        "x 2 codecs, including the operator report text.",
+        "x 2 codecs, including the operator report text. In addition a SOURCE TIE: harness/pytrans.py translates the current Python text of VbsReader.__next__ (raises rendered as results) into Lean (Gen/Src.lean) on every run and lean/Cardutil/SrcTie/Reader.lean proves, for all inputs, that the translation equals the model (and restates the property for the translated code); when the source changes so that this no longer checks, the check runs its thorough generators before answering (the correspondence remains the deciding tie).",
         "Trusted: as C03/C07.",
         "DESIGN.md §8 C10"),
     'C18': (
